@@ -256,7 +256,7 @@ Definition ecode (os : ostype) (e : ekind) : N * N :=
   | EW_NotReparsePoint => (1, 4390) | EW_IncorrectFunc => (1, 1) | EW_InvalidHandle => (1, 6)
   | EW_NotSupported => (1, 536871042)
   | EG_Closed => (3, 1) | EG_Invalid => (3, 2) | EG_EOF => (3, 3)
-  | EG_FileClosing => (2, 2) | EG_NegativeOffset => (2, 1)
+  | EG_FileClosing => (2, 2) | EG_NegativeOffset => (2, 1) | EG_WriteAtInAppendMode => (2, 7)
   | EFuel => (9, 0)
   end%N.
 
